@@ -60,6 +60,22 @@ class ClientHandle:
     async def call(self, coro):
         return await self.world.call(self.name, coro)
 
+    def dead_background_tasks(self) -> list:
+        """Library background tasks that ended although nobody cancelled them
+        (an exception inside a BackgroundTask job silently ends the runner)."""
+        from aioslsk.tasks import BackgroundTask
+        out = []
+        c = self.client
+        owners = [c.network, c.distributed_network] + list(c.services)
+        for owner in owners:
+            for attr, val in vars(owner).items():
+                if isinstance(val, BackgroundTask) and val._task is not None and val._task.done():
+                    t = val._task
+                    exc = None if t.cancelled() else t.exception()
+                    out.append({'owner': type(owner).__name__, 'task': val.name,
+                                'cancelled': t.cancelled(), 'exception': repr(exc)})
+        return out
+
     def events_of(self, cls) -> list:
         return [(t, e) for t, e in self.events if isinstance(e, cls)]
 
